@@ -544,7 +544,8 @@ def gen_seq_list(rng):
     holders_k = [sorted(rng.sample(range(n), rng.randrange(1, n + 1))) for _ in keys]
     for i in range(n):
         spec = music.gen_music(rng, max_notes=rng.choice([2, 5, 10]), channels=(rng.choice([0, 0, 1, 3]),), horizon=horizon,
-                               sigs=False, extras=True, allow_empty=True)
+                               sigs=False, extras=True, allow_empty=True,
+                               pitches=sorted(rng.sample(range(0, 128), rng.randrange(1, 5))) if rng.random() < 0.15 else None)
         if spread:
             spec["tsigs"] = [list(x) for x, h in zip(tsigs, holders_t) if i in h]
             spec["keys"] = [list(x) for x, h in zip(keys, holders_k) if i in h]
@@ -770,6 +771,31 @@ def write_smf_raw(tpb, tracks):
                     data.append(st)
                     status = st
                 data.append(e["prog"])
+            elif k == "other":
+                t = e["type"]
+                if t == "set_tempo":
+                    data += bytes([0xFF, 0x51, 3]) + int(e["v"]).to_bytes(3, "big")
+                elif t in ("marker", "track_name", "lyrics"):
+                    txt = ("x" * (e["v"] % 5 + 1)).encode()
+                    data += bytes([0xFF, {"marker": 6, "track_name": 3, "lyrics": 5}[t], len(txt)]) + txt
+                elif t == "control_change":
+                    st = 0xB0 | e["ch"]
+                    if st != status:
+                        data.append(st)
+                        status = st
+                    data += bytes([e["v"] % 120, e["v"] % 128])
+                elif t == "pitchwheel":
+                    st = 0xE0 | e["ch"]
+                    if st != status:
+                        data.append(st)
+                        status = st
+                    data += bytes([e["v"] % 128, (e["v"] // 128) % 128])
+                elif t == "aftertouch":
+                    st = 0xD0 | e["ch"]
+                    if st != status:
+                        data.append(st)
+                        status = st
+                    data.append(e["v"] % 128)
         data += b"\x00\xFF\x2F\x00"
         out += b"MTrk" + struct.pack(">L", len(data)) + data
     return bytes(out)
@@ -804,6 +830,18 @@ def write_smf_mido(tpb, tracks):
                 tr.append(mido.MetaMessage("key_signature", key=e.get("file_key", e["key"]), time=dt))
             elif k == "pc":
                 tr.append(mido.Message("program_change", channel=e["ch"], program=e["prog"], time=dt))
+            elif k == "other":
+                t = e["type"]
+                if t == "set_tempo":
+                    tr.append(mido.MetaMessage("set_tempo", tempo=int(e["v"]), time=dt))
+                elif t in ("marker", "track_name", "lyrics"):
+                    tr.append(mido.MetaMessage(t, **{"name" if t == "track_name" else "text": "x" * (e["v"] % 5 + 1)}, time=dt))
+                elif t == "control_change":
+                    tr.append(mido.Message("control_change", channel=e["ch"], control=e["v"] % 120, value=e["v"] % 128, time=dt))
+                elif t == "pitchwheel":
+                    tr.append(mido.Message("pitchwheel", channel=e["ch"], pitch=(e["v"] % 128 + 128 * ((e["v"] // 128) % 128)) - 8192, time=dt))
+                elif t == "aftertouch":
+                    tr.append(mido.Message("aftertouch", channel=e["ch"], value=e["v"] % 128, time=dt))
         mf.tracks.append(tr)
     bio = io.BytesIO()
     mf.save(file=bio)
@@ -908,7 +946,13 @@ def gen_c13_file(rng, tier):
     if rng.random() < 0.3:
         tr = rng.randrange(ntracks)
         tracks[tr].append({"tick": rng.choice([0, rng.randrange(0, horizon + 1)]), "k": "pc", "ch": rng.randrange(16), "prog": rng.randrange(128)})
-    order = {"ts": 0, "ks": 1, "pc": 2, "off": 3, "on": 4}
+    # messages S-Coda ignores (tempo, text, controllers, pitch wheel...) still carry delta times that must be counted
+    for tr in tracks:
+        for _ in range(rng.choice([0, 0, 1, 3, 8])):
+            tr.append({"tick": rng.randrange(0, horizon + 1), "k": "other", "ch": rng.randrange(16),
+                       "type": rng.choice(["set_tempo", "marker", "track_name", "lyrics", "control_change", "pitchwheel", "aftertouch"]),
+                       "v": rng.randrange(1, 1 << 14) if True else 0})
+    order = {"ts": 0, "ks": 1, "pc": 2, "other": 2, "off": 3, "on": 4}
     for tr in tracks:
         tr.sort(key=lambda e: (e["tick"], order[e["k"]]))
     return {"tpb": tpb, "tracks": tracks, "groups": None if use_default_groups else groups, "meta": meta, "target": target,
@@ -1204,7 +1248,7 @@ def _c13_simplify(trace):
                         ne = evs[:j] + evs[j + 1:j2] + evs[j2 + 1:]
                         yield with_file(dict(f, tracks=tracks[:ti] + [ne] + tracks[ti + 1:]))
                         break
-            elif e["k"] in ("ts", "ks", "pc"):
+            elif e["k"] in ("ts", "ks", "pc", "other"):
                 yield with_file(dict(f, tracks=tracks[:ti] + [evs[:j] + evs[j + 1:]] + tracks[ti + 1:]))
     if f["writer"] != "mido":
         yield with_file(dict(f, writer="mido"))
